@@ -30,9 +30,14 @@ type elEvent struct {
 }
 
 func chars(s string) []int {
+	// byte-wise (the limits are byte limits): 'a' and 'b' are 1 and 2, any other byte is its value
 	out := []int{}
-	for _, c := range s {
-		out = append(out, int(c-'a')+1)
+	for i := 0; i < len(s); i++ {
+		if s[i] == 'a' || s[i] == 'b' {
+			out = append(out, int(s[i]-'a')+1)
+		} else {
+			out = append(out, int(s[i]))
+		}
 	}
 	return out
 }
@@ -70,8 +75,14 @@ func runEventLog(c *ctx) error {
 		mkline := func() string {
 			n := c.rng.Intn(2*cf.maxLine + 1)
 			var sb strings.Builder
-			for i := 0; i < n; i++ {
-				sb.WriteByte("ab"[c.rng.Intn(2)])
+			// mostly ASCII; sometimes multi-byte characters and stray continuation bytes, which may straddle the cut
+			multi := c.rng.Intn(3) == 0
+			for sb.Len() < n {
+				if multi && c.rng.Intn(2) == 0 {
+					sb.WriteString([]string{"\u00e9", "\u20ac", "\U0001F600", "\x80", "\xbf\x80\x80"}[c.rng.Intn(5)])
+				} else {
+					sb.WriteByte("ab"[c.rng.Intn(2)])
+				}
 			}
 			return sb.String()
 		}
